@@ -160,6 +160,31 @@ def gen_case(rng, tier, idx):
             lines.append(T.gen_line(rng, cfg, "~~%d~%d~%d~~" % (base, c, l), kinds=kinds, ip_pool=ip_pool, mac_pool=mac_pool,
                                     host_pool=host_pool, plain_tokens=not suffixes))
         calls.append(lines)
+    if rng.random() < 0.05:
+        # a large site: more distinct addresses than one /24 of substitutes holds, first listed four to a line, then recurring
+        many = []
+        while len(many) < rng.randint(258, 300 if tier == "quick" else 600):
+            a = T.gen_ip(rng)
+            if a not in many and a not in ip_pool and not a.startswith("10.230.") and not a.startswith("127."):
+                many.append(a)
+        bulk = []
+        for i in range(0, len(many), 4):
+            bulk.append({"tag": "~~%d~7000~%d~~" % (base, i), "d": " ", "slots": [["fill", "link", "link"]] + [["ip", a, a] for a in many[i:i + 4]]})
+        calls.insert(rng.randint(0, len(calls)), bulk[:len(bulk) // 2])
+        calls.insert(rng.randint(0, len(calls)), bulk[len(bulk) // 2:])
+        calls.append([{"tag": "~~%d~7001~%d~~" % (base, i), "d": " ", "slots": [["ip", a, a] for a in rng.sample(many, 3)]} for i in range(20)])
+    if cfg["obfuscate_hostname"] and "." in cfg["fqdn"] and rng.random() < 0.12:
+        # a cluster member list: many hosts of the system's domain on ONE line, the same hosts one per line elsewhere
+        dom = T.domain_of(cfg["fqdn"])
+        members = ["%s%02dq.%s" % (rng.choice(["ndz", "wk-", "db_"]), i, dom) for i in rng.sample(range(100), rng.randint(11, 16))] if dom else []
+        if len(members) >= 11:
+            single = [{"tag": "~~%d~7002~%d~~" % (base, i), "d": " ", "slots": [["fill", "link", "link"], ["otherhost", h, h]]} for i, h in enumerate(members)]
+            listing = {"tag": "~~%d~7003~~" % base, "d": " ", "slots": [["fill", "up", "up"]] + [["otherhost", h, h] for h in members]}
+            order = [single[:len(single) // 2], [listing], single[len(single) // 2:], [dict(listing, tag="~~%d~7004~~" % base)]]
+            if rng.random() < 0.5:
+                order.reverse()
+            for blk in order:
+                calls.insert(rng.randint(0, len(calls)), blk)
     if cfg["obfuscate_mac"] and rng.random() < 0.25:
         # an original that is textually the substitute of another original (substitutes are per-octet SHA-1 prefixes, so
         # such a pair can be planted): X is seen first, then W with substitute(W) == X, then X again
